@@ -181,7 +181,7 @@ func runCheck(args []string) int {
 	}
 	// discharge everything in one pool
 	var wg sync.WaitGroup
-	sem := make(chan struct{}, runtime.NumCPU())
+	sem := make(chan struct{}, solverWorkers())
 	for _, r := range results {
 		if r.res.Script == nil {
 			continue
@@ -537,4 +537,16 @@ func (e *Engine) verifyLemma(name string) (res *FuncResult) {
 		x.oblige("lemma", labelOr(en.Label, i), x.trBool(en.Expr, env), 0, en.Text)
 	}
 	return
+}
+
+// solverWorkers: obligations discharged concurrently (each may run up to three solver processes in the race).
+// GOVC_WORKERS bounds it when several checks share the machine (mutants/run.sh, tools/seedall.py).
+func solverWorkers() int {
+	n := runtime.NumCPU()
+	if s := os.Getenv("GOVC_WORKERS"); s != "" {
+		if k, err := strconv.Atoi(s); err == nil && k >= 1 {
+			n = k
+		}
+	}
+	return n
 }
